@@ -92,6 +92,7 @@ impl Prop for C12 {
             change_points,
             sharing: rng.below(4),
             setup: 0,
+            last_dropped_input: None,
             prelude: if world.note == "giant" {
                 vec![
                     Op::DropIter { it: 0 },
@@ -137,6 +138,9 @@ struct Gen12<'w> {
     sharing: usize,
     setup: usize,
     prelude: Vec<Op>,
+    /// input of the iterator dropped most recently (to hand its recycled buffer another text
+    /// of the same length)
+    last_dropped_input: Option<usize>,
 }
 
 impl<'w> Gen12<'w> {
@@ -209,12 +213,23 @@ impl<'w> Gen for Gen12<'w> {
         let free: Vec<usize> = slots.iter().copied().filter(|s| self.m.iters[*s].is_none()).collect();
         if live.is_empty() || (!free.is_empty() && rng.chance(1, 8)) {
             let it = *rng.pick(&free);
-            let input = rng.below(w.inputs.len());
+            let mut input = rng.below(w.inputs.len());
+            // buffer recycling: after a drop, prefer ANOTHER input of exactly the same byte length
+            if let Some(d) = self.last_dropped_input {
+                let sib: Vec<usize> = (0..w.inputs.len()).filter(|i| *i != d && w.inputs[*i].len() == w.inputs[d].len() && w.inputs[*i] != w.inputs[d]).collect();
+                if !sib.is_empty() && rng.chance(2, 3) {
+                    input = *rng.pick(&sib);
+                }
+            }
             let with_offset = if rng.chance(1, 8) { Some(*rng.pick(&gen::boundaries(&w.inputs[input]))) } else { None };
             return Some(Op::NewIter { it, sc: *rng.pick(&scs), input, positions: rng.chance(1, 6), with_offset });
         }
         let it = *rng.pick(&live);
         let im = self.m.iters[it].as_ref().unwrap();
+        // an iterator abandoned right after a peek (nothing consumed since)
+        if im.last_peek.is_some() && rng.chance(1, 5) {
+            return Some(Op::DropIter { it });
+        }
         let plain = !im.positions;
         let can_adv = plain && im.last_peek.as_ref().map(|p| !p.1.is_empty()).unwrap_or(false);
         Some(match rng.weighted(&[50, if plain { 10 } else { 0 }, 8, 6, 4, 5, 3, 2, if can_adv { 8 } else { 0 }]) {
@@ -241,6 +256,11 @@ impl<'w> Gen for Gen12<'w> {
         })
     }
     fn observe(&mut self, op: &Op, obs: &Obs) {
+        if let Op::DropIter { it } = op {
+            if let Some(Some(m)) = self.m.iters.get(*it) {
+                self.last_dropped_input = Some(m.input);
+            }
+        }
         self.m.observe(op, obs)
     }
 }
